@@ -351,6 +351,17 @@ class MQTTBaseProtocol(Protocol):
             self.transport.abortConnection()
             return
 
+        # Reserved flag bits of the fixed header must have the value the
+        # specification prescribes for the packet type [MQTT-2.2.2-2].
+        # (PUBLISH uses them all; under MQTT 3.1 a repeated PUBREL carries DUP)
+        if packet_type_name != "PUBLISH":
+            expected = 0x02 if packet_type_name in ("PUBREL", "SUBSCRIBE", "UNSUBSCRIBE") else 0x00
+            if packet_type_name == "PUBREL" and self._version == v31:
+                packet_flags &= 0x07
+            if packet_flags != expected:
+                log.error("Invalid flags {flags:x} in {packet}", flags=packet[0] & 0x0F, packet=packet_type_name)
+                self.transport.abortConnection()
+                return
 
         # Get the appropriate decoder function
         packetDecoder = getattr(self, "_handle%s" % packet_type_name, None)
